@@ -129,7 +129,7 @@ class IncrementalSage(BaseIncrementalFeatureImportance):
                                  for i in np.random.permutation(len(self.feature_names))]
             y_i_pred = self._model_function(x_i)
             model_loss = self._loss_function(y_i, y_i_pred)
-            # the estimates are only committed after all callbacks (model, loss, imputer) returned
+            # the estimates are only committed after all callbacks (model, loss, imputer, storage) returned
             marginal_prediction_tracker = copy.deepcopy(self._marginal_prediction_tracker)
             marginal_prediction_tracker.update(y_i_pred)
             marginal_prediction = marginal_prediction_tracker.get_normalized()
@@ -149,6 +149,9 @@ class IncrementalSage(BaseIncrementalFeatureImportance):
                 marginal_contribution = sample_loss - feature_loss
                 sample_loss = feature_loss
                 marginal_contributions[feature] = marginal_contribution
+        if update_storage:
+            self._storage.update(x_i, y_i)
+        if self.seen_samples >= 1:
             self._model_loss_tracker.update(model_loss)
             self._marginal_prediction_tracker = marginal_prediction_tracker
             self.marginal_prediction = marginal_prediction
@@ -160,6 +163,4 @@ class IncrementalSage(BaseIncrementalFeatureImportance):
             }
             self._variance_trackers.update(variances)
         self.seen_samples += 1
-        if update_storage:
-            self._storage.update(x_i, y_i)
         return self.importance_values
